@@ -604,6 +604,17 @@ impl LocalPeerService {
         Ok(())
     }
 
+    /// verification entry point: the private room synchronisation routine, unchanged
+    #[cfg(feature = "verif")]
+    pub async fn verif_synchronise_room(
+        room_id: Uid,
+        query_service: &QueryService,
+        peer_service: PeerConnectionService,
+        discret_services: &DiscretServices,
+    ) -> Result<(), crate::Error> {
+        Self::synchronise_room(room_id, query_service, peer_service, discret_services).await
+    }
+
     async fn synchronise_room_definition(
         remote_room: &RoomDefinitionLog,
         local_room_def: &Option<RoomDefinitionLog>,
